@@ -219,7 +219,7 @@ def minimise(check, v, budget_s=150.0):
         if fails(c2, dec):
             cfg = c2
     # 2. simpler deployment
-    for field, simple in (("shared_memory", False), ("backend", "agg"), ("callbacks", 1), ("override", None), ("dur_scale", 1.0)):
+    for field, simple in (("shared_memory", False), ("in_child", False), ("decoy", None), ("prelude", None), ("backend", "agg"), ("callbacks", 1), ("override", None), ("dur_scale", 1.0)):
         if cfg.get(field) != simple:
             c2 = dict(cfg)
             c2[field] = simple
